@@ -41,7 +41,9 @@ func newApp(derivedFrom []string, header string, validate bool, tp fiber.TrustPr
 		cfg = other.Config()
 	}
 	cfg.TrustProxy, cfg.ProxyHeader, cfg.EnableIPValidation = true, header, validate
-	cfg.TrustProxyConfig = tp
+	// field by field, as a caller adjusting a copied Config does (the copy keeps whatever the struct carries besides them)
+	cfg.TrustProxyConfig.Proxies = tp.Proxies
+	cfg.TrustProxyConfig.Loopback, cfg.TrustProxyConfig.Private, cfg.TrustProxyConfig.LinkLocal = tp.Loopback, tp.Private, tp.LinkLocal
 	return fiber.New(cfg)
 }
 
